@@ -43,10 +43,15 @@ _op = st.sampled_from(_OPS)
 
 def draw_int(draw, hint: int):
     v = max(0, hint + draw(st.sampled_from([-2, -1, -1, 0, 0, 0, 0, 1, 1, 2])))
-    if draw(_pct) < 12:
+    k = draw(_pct)
+    if k < 12:
         v = draw(st.integers(0, 7))
+    elif k < 18:
+        v = draw(st.integers(-3, 0))  # no line number / line count is negative: the comparison is still defined
     form = draw(_pct)
-    if form < 80:
+    if v < 0:
+        src = str(v) if form < 70 else '0%d' % v if form < 85 else "'%d'" % v
+    elif form < 80:
         src = str(v)
     elif form < 88:
         src = '%d+1' % (v - 1) if v >= 1 else '1-1'
